@@ -304,6 +304,7 @@ def program(ctx, k):
             break  # programs continue only while the value is still a batch of images
         try:
             cnext = replay(name, fn, ccur)
+            fn(cur.as_subclass(torch.Tensor))  # torch itself must accept the operation for this dtype / shape
         except Exception:  # noqa: BLE001
             continue
         prog.append(name)
@@ -314,6 +315,8 @@ def program(ctx, k):
             if sum(ctx.violation_counts.values()) > before:
                 break  # attribute a violation to the first operation that shows it
             if isinstance(nxt, (tuple, list)):
+                if len(nxt) == 0 or len(nxt) != len(cnext):
+                    break
                 j = int(rng.integers(0, len(nxt)))
                 nxt, cnext = nxt[j], cnext[j]
             cur, ccur = nxt, cnext
